@@ -705,6 +705,7 @@ class Node(
                 node.label = label_map[modified_label]
             raise e
 
+        parent_run_failed = False
         try:
             parent_starting_nodes = (
                 self.parent.starting_nodes if self.parent is not None else []
@@ -746,18 +747,30 @@ class Node(
                     from pyiron_workflow.workflow import Workflow
 
                     self.parent.starting_nodes = data_tree_starters
-                    if isinstance(self.parent, Workflow):
-                        automated = self.parent.automate_execution
-                        self.parent.automate_execution = False
-                        try:
-                            self.parent.run()
-                        finally:
-                            # And revert our workflow hack, also when the run fails
-                            self.parent.automate_execution = automated
-                    else:
-                        # The parent only drives the upstream run here, it has not run
-                        # itself: its own signals must not start its siblings
-                        self.parent.run(emit_ran_signal=False)
+                    # While the parent drives the upstream run the graph is in a
+                    # temporary shape (labels, run connections, starting nodes,
+                    # automation): a recovery file written now would hold that shape.
+                    # Hold it back until everything has been put back (below)
+                    parent_recovery = self.parent.recovery
+                    self.parent.recovery = None
+                    try:
+                        if isinstance(self.parent, Workflow):
+                            automated = self.parent.automate_execution
+                            self.parent.automate_execution = False
+                            try:
+                                self.parent.run()
+                            finally:
+                                # And revert our workflow hack, also when the run fails
+                                self.parent.automate_execution = automated
+                        else:
+                            # The parent only drives the upstream run here, it has not
+                            # run itself: its own signals must not start its siblings
+                            self.parent.run(emit_ran_signal=False)
+                    except BaseException:
+                        parent_run_failed = True
+                        raise
+                    finally:
+                        self.parent.recovery = parent_recovery
         finally:
             # No matter what, restore the original connections and labels afterwards
             for modified_label, node in nodes.items():
@@ -766,6 +779,17 @@ class Node(
                 channel.connections = connections
             if self.parent is not None:
                 self.parent.starting_nodes = parent_starting_nodes
+                if (
+                    parent_run_failed
+                    and self.parent.failed
+                    and self.parent.recovery is not None
+                    and self.parent.graph_root is self.parent
+                ):
+                    # The recovery file held back above: the graph as the user made it
+                    self.parent.save(
+                        backend=self.parent.recovery,
+                        filename=self.parent.as_path().joinpath("recovery"),
+                    )
 
     @property
     def cache_hit(self):
